@@ -102,9 +102,14 @@ func Mul(x, y Number) Number {
 
 // Inv returns the dual inverse of d.
 func Inv(d Number) Number {
+	// (d₁+d₂ϵ)⁻¹ = d₁⁻¹ - d₁⁻¹d₂d₁⁻¹ϵ with d₁⁻¹ = d̅₁/|d₁|²;
+	// quaternion multiplication does not commute.
+	rc := quat.Conj(d.Real)
+	r := d.Real
+	n2 := r.Real*r.Real + r.Imag*r.Imag + r.Jmag*r.Jmag + r.Kmag*r.Kmag
 	return Number{
 		Real: quat.Inv(d.Real),
-		Dual: quat.Scale(-1, quat.Mul(d.Dual, quat.Inv(quat.Mul(d.Real, d.Real)))),
+		Dual: quat.Scale(-1/(n2*n2), quat.Mul(quat.Mul(rc, d.Dual), rc)),
 	}
 }
 
